@@ -138,6 +138,12 @@ def gen_spec(rng, idx, for_sim):
             a["max"] = gen_attr(rng, usable, [20, 50, 1, 100, INF])
         a["nominal"] = gen_attr(rng, good, [10, -4, 0, 1, -1, 100, 0.5, 2], p_sym=0.15)
         a["start"] = gen_attr(rng, usable if not for_sim else good, [0, 0, 1.5, -2.5, 3, 6], p_sym=0.25)
+        if for_sim and a["nominal"] is not None and a["nominal"][0] == "sym":
+            # simulation keeps a parameter-dependent nominal as it is: one that evaluates to 0 makes
+            # initialize() fail with Invalid_Number_Detected (reported; kept out of the main stream)
+            _, k, pn, b = a["nominal"]
+            if k * next(p["value"] for p in params if p["name"] == pn) + b == 0.0:
+                a["nominal"] = None
         return a
 
     for i in range(nS):
@@ -159,7 +165,7 @@ def gen_spec(rng, idx, for_sim):
                           "attrs": {"min": None, "max": None, "nominal": None,
                                     "start": rng.choice([None, ("lit", True), ("lit", False)])},
                           "fixed": None, "output": False, "eq": "sw = x0 > 1.0"})
-    variables.append({"name": "o0", "kind": "alg", "mtype": "Real", "attrs": {"min": gen_attr(rng, good, [-1, -10]), "max": None, "nominal": None, "start": None},
+    variables.append({"name": "o0", "kind": "alg", "mtype": "Real", "attrs": {"min": gen_attr(rng, good, [-1, -10]) if not for_sim else None, "max": None, "nominal": None, "start": None},
                       "fixed": None, "output": True, "eq": "o0 = x0 + w0" if not for_sim else "o0 = w0 + u1"})
     # inputs
     variables.append({"name": "u0", "kind": "input", "mtype": "Real",
@@ -455,7 +461,10 @@ def check_opt(c, spec, folder, lines, pending):
             e = exp_b[v["name"]]
             g = obs["bounds"][1].get(v["name"])
             kind = tuple(("abs" if a is None else a[0]) for a in (v["attrs"]["min"], v["attrs"]["max"]))
-            c.count(("opt", "bounds", v["mtype"], kind, v["name"] in spec["inherited"]))
+            psrc = tuple(sorted({("code" if a[2] in spec["src"]["code"] else "file" if a[2] in spec["src"]["file"] else "model")
+                                 for a in (v["attrs"]["min"], v["attrs"]["max"]) if a is not None and a[0] == "sym"}))
+            c.count(("opt", "bounds", v["kind"], v["mtype"], kind, v["name"] in spec["inherited"], psrc,
+                     e[0] == -INF, e[1] == INF, e[0] > e[1]))
             c.hit("bounds/" + "-".join(kind) + ("+inh" if v["name"] in spec["inherited"] else ""))
             if g is None or not (close(g[0], e[0]) and close(g[1], e[1])):
                 c.fail("bounds of %r are not the intersection of the declared and inherited bounds" % v["name"], case,
@@ -468,7 +477,7 @@ def check_opt(c, spec, folder, lines, pending):
             e = decl.nominal(v)
             g = obs["nominal"][1][v["name"]]
             a = v["attrs"]["nominal"]
-            c.count(("opt", "nominal", "abs" if a is None else a[0], e))
+            c.count(("opt", "nominal", v["kind"], "abs" if a is None else a[0], e))
             c.hit("nominal/" + ("default" if e == 1.0 else "set"))
             if not (close(g, e) and g > 0):
                 c.fail("nominal of %r: expected %r, got %r" % (v["name"], e, g), case)
@@ -486,7 +495,8 @@ def check_opt(c, spec, folder, lines, pending):
     elif not h_raise:
         for n, e in exp_h.items():
             g = obs["history"][1].get(n)
-            c.count(("opt", "history", e is None, byname[n]["kind"]))
+            a = byname[n]["attrs"]["start"]
+            c.count(("opt", "history", e is None, byname[n]["kind"], "abs" if a is None else a[0], byname[n]["fixed"]))
             c.hit("history/" + ("none" if e is None else "fixed-start"))
             if e is None:
                 if g is not None:
@@ -499,7 +509,9 @@ def check_opt(c, spec, folder, lines, pending):
         for v in declared_vars:
             e = decl.seed(v)
             g = obs["seed"][1].get(v["name"])
-            c.count(("opt", "seed", e is None, v["kind"], v["mtype"]))
+            a = v["attrs"]["start"]
+            c.count(("opt", "seed", e is None, v["kind"], v["mtype"], "abs" if a is None else a[0], bool(v["fixed"]),
+                     None if e is None else (e > 0) - (e < 0)))
             c.hit("seed/" + ("none" if e is None else "start"))
             if e is None:
                 if g is not None:
@@ -653,18 +665,22 @@ def check_sim(c, spec, folder, lines, pending):
         # oracle: the clear-cut clauses
         st, sym = decl.resolve(v["attrs"]["start"], 0.0)
         has_start = st[0] == "val" and (sym or st[1] != 0.0)
-        exp = None
+        # (the decision table of the initialize() docstring: a declared fixed start always; else a
+        #  non-zero / parameter-dependent Modelica start before initial_state(); initial_state() for a
+        #  zero/absent start; seed() only when the variable is not fixed and initial_state() has nothing)
         if v["fixed"]:
             exp, why = st[1], "fixed start"
-        elif has_start and n not in init_state and n not in seedv:
-            exp, why = st[1], "non-fixed start (soft)"
-        elif not has_start and n in init_state:
-            exp, why = init_state[n], "initial_state"
-        elif not has_start and n not in init_state and n in seedv:
+        elif n in init_state:
+            exp, why = (st[1], "start over initial_state") if has_start else (init_state[n], "initial_state")
+        elif n in seedv:
             exp, why = seedv[n], "seed"
-        c.count(("sim", "start", bool(v["fixed"]), has_start, n in init_state, n in seedv))
-        c.hit("sim/" + ("mixed" if exp is None else why))
-        if exp is not None and not abs(got - exp) <= tol * max(1.0, abs(exp)):
+        else:
+            exp, why = st[1], "non-fixed start (soft)"
+        a = v["attrs"]["start"]
+        c.count(("sim", "start", v["fixed"], "abs" if a is None else a[0], has_start, n in init_state, n in seedv,
+                 decl.nominal(v) != 1.0))
+        c.hit("sim/" + why)
+        if not abs(got - exp) <= tol * max(1.0, abs(exp)):
             c.fail("simulation: %r starts at %r, expected %r (%s)" % (n, got, exp, why), case)
         lines.append({"op": "sim", "params": {"model": model_params, "file": [], "code": [[k, pval_wire(x)] for k, x in code.items()]},
                       "decl": decls[n], "initial_state": fr(init_state[n]) if n in init_state else None,
